@@ -748,3 +748,124 @@ func init() {
 	p.Streams = append(p.Streams, core.Stream{Name: "depspec", Gen: streamDepspec,
 		Domain: "dependency ASTs rendered by the Lean specification Spec.Dependency.render under a random 96-entry choice stream (white space from {none, blank, tab, LF+blank, two blanks, CRLF+tab, LF} in every legal slot, version / architecture clauses in either order interleaved with the profile groups); expected structure = Spec.Dependency.denote; the real parser's result must equal it"})
 }
+
+func init() {
+	// law: results of separate parses are independent values: changing one in place (as a
+	// caller resolving qualifiers does) neither alters another part of the same result nor
+	// what a later parse of the same text returns
+	depImpl["law-depindep"] = func(a []string) string {
+		s := core.MustUnHex(a[0])
+		d1, err := dependency.Parse(s)
+		if err != nil {
+			return "ok"
+		}
+		before := dumpDep(d1)
+		// change the first qualifier / first arch-list entry / first version in place
+		touched := false
+		for i := range d1.Relations {
+			for j := range d1.Relations[i].Possibilities {
+				p := &d1.Relations[i].Possibilities[j]
+				if touched {
+					continue
+				}
+				if p.Arch != nil {
+					p.Arch.CPU, p.Arch.OS, p.Arch.ABI = "mutated", "mutated", "mutated"
+					touched = true
+				} else if p.Architectures != nil && len(p.Architectures.Architectures) > 0 {
+					p.Architectures.Architectures[0].CPU = "mutated"
+					touched = true
+				} else if p.Version != nil {
+					p.Version.Number = "mutated"
+					touched = true
+				}
+			}
+		}
+		if touched {
+			// everything except the touched possibility is unchanged: compare a fresh parse with the original dump
+			d2, err := dependency.Parse(s)
+			if err != nil || dumpDep(d2) != before {
+				return "FAIL a second parse of the same text is affected by changes made to the first result"
+			}
+			// and within the first result only one possibility differs from the fresh parse
+			diff := 0
+			for i := range d1.Relations {
+				for j := range d1.Relations[i].Possibilities {
+					if dumpPoss(d1.Relations[i].Possibilities[j]) != dumpPoss(d2.Relations[i].Possibilities[j]) {
+						diff++
+					}
+				}
+			}
+			if diff > 1 {
+				return "FAIL changing one alternative in place changed " + strconv.Itoa(diff) + " alternatives (shared storage)"
+			}
+		}
+		return "ok"
+	}
+	// law: the malformed classes the property lists are rejected with an error and no result
+	depImpl["law-depreject"] = func(a []string) string {
+		d, err := dependency.Parse(core.MustUnHex(a[0]))
+		if err == nil {
+			return "FAIL malformed field accepted as " + dumpDep(d)
+		}
+		if d != nil {
+			return "FAIL error together with a result"
+		}
+		return "ok"
+	}
+	p := core.Lookup("C04")
+	p.Streams = append(p.Streams, core.Stream{Name: "depmalformed", Gen: streamDepMalformed,
+		Domain: "the malformed classes of the property, built from valid fields: unterminated '(' '[' '<' '${' (closer and everything after it removed), mixed negation in an architecture list, a second version clause, a second architecture clause, every two-character operator over {<,>,=,!,~} that is not one of the five, two names without a separator; expectation: error and nil result; plus the independence law (results do not share storage with each other or with later parses)"})
+}
+
+func streamDepMalformed(g *core.G) {
+	r := g.R
+	n := g.N(800, 40000)
+	valid := map[string]bool{">=": true, "<=": true, "<<": true, ">>": true}
+	for i := 0; i < n; i++ {
+		name := r.Pick(pkgNames)
+		other := r.Pick(pkgNames)
+		_, u, rv, hr := genWFVersion(r)
+		ver := renderWF("", strings.ReplaceAll(u, ":", ""), rv, hr)
+		a1, a2 := r.Pick(archNames), r.Pick(archNames)
+		var bad string
+		switch r.Intn(9) {
+		case 0:
+			bad = name + " (>= " + ver
+		case 1:
+			bad = name + " [" + a1 + " " + a2
+		case 2:
+			bad = name + " <" + r.Pick(profNames)
+		case 3:
+			bad = "${" + r.Pick([]string{"misc:Depends", "x"})
+		case 4:
+			if r.Bool() {
+				bad = name + " [!" + a1 + " " + a2 + "]"
+			} else {
+				bad = name + " [" + a1 + " !" + a2 + "]"
+			}
+		case 5:
+			bad = name + " (>= " + ver + ") (<= " + ver + ")"
+		case 6:
+			bad = name + " [" + a1 + "] [" + a2 + "]"
+		case 7:
+			c1, c2 := r.PickByte("<>=!~"), r.PickByte("<>=!~")
+			op := string([]byte{c1, c2})
+			if c1 == '=' || valid[op] {
+				continue
+			}
+			bad = name + " (" + op + " " + ver + ")"
+		case 8:
+			bad = name + " " + other
+		}
+		if r.Chance(1, 3) {
+			bad = other + ", " + bad
+		}
+		if r.Chance(1, 3) && !strings.HasSuffix(bad, ver) && !strings.Contains(bad, "${") {
+			bad = bad + ", " + other
+		}
+		g.Emit("law-depreject", core.Hex(bad))
+		g.Emit("depparse", core.Hex(bad))
+		good := renderDep(r, genDepAST(r), r.Intn(4))
+		g.Emit("law-depindep", core.Hex(good))
+	}
+}
